@@ -84,7 +84,7 @@ func body(c *kernel.Ctx) {
 	// (randao, then the block) for one validator in one slot of the run, in a third of the runs
 	pl := &plan{served: map[eth2p0.Root]string{}}
 	pl.electra = verifrt.Intn("cfg", 2) == 1
-	pl.proposer = verifrt.Intn("cfg", 3) == 2
+	pl.proposer = verifrt.Intn("cfg", 2) == 1 // half of the runs; half of these keep the full Capella block (chooseMoreKinds)
 	if pl.proposer {
 		pl.propSlot = cfg.StartSlot + uint64(verifrt.Intn("cfg", nSlots))
 		pl.propVal = cl.Vals[verifrt.Intn("cfg", len(cl.Vals))]
@@ -98,8 +98,11 @@ func body(c *kernel.Ctx) {
 	}
 	// the aggregation pipelines (aggregator; sync contribution, which switches sync messages on)
 	chooseAggKinds(cl, pl, cfg.StartSlot, nSlots, &syncMsgs)
+	// proposer variants (builder/blinded, Deneb block contents), voluntary exits, builder registrations
+	chooseMoreKinds(c, cl, pl, cfg.StartSlot, nSlots)
 	c.Set("sync_messages", syncMsgs)
 	aggKindsSummary(c, pl)
+	moreKindsSummary(c, pl)
 	cur = pl
 	installBeacon(cl, pl, beaconErrs)
 	c.Set("attestation_format", map[bool]string{false: "deneb", true: "electra"}[pl.electra])
@@ -217,6 +220,7 @@ func body(c *kernel.Ctx) {
 						verifrt.GoNode(cl.Nodes[me].Tag, func() { defer wg.Done(); proposerAt(ctx, cl, me, false) })
 					}
 					startAggKinds(ctx, cl, me, false)
+					startMoreKinds(ctx, cl, me, false, true)
 					for s := 0; s < nSlots; s++ {
 						slot := firstSlot + uint64(s)
 						if time.Now().Before(cl.SlotStart(slot).Add(cfg.SlotDuration / 3)) {
@@ -244,6 +248,7 @@ func runNode(ctx context.Context, c *kernel.Ctx, cl *cluster.Cluster, i int, fir
 		verifrt.GoNode(n.Tag, func() { defer wg.Done(); proposerAt(ctx, cl, i, byz) })
 	}
 	startAggKinds(ctx, cl, i, byz)
+	startMoreKinds(ctx, cl, i, byz, false)
 	for s := 0; s < nSlots; s++ {
 		slot := firstSlot + uint64(s)
 		n := cl.Nodes[i]
@@ -431,6 +436,7 @@ type oracle struct {
 	nSlots    int
 	views     int
 	done      map[string]bool
+	moreKeys  map[string]bool // (duty, validator) keys of broadcast exits and builder registrations
 }
 
 func (o *oracle) onBroadcast(b cluster.Broadcast) {
@@ -450,7 +456,7 @@ func (o *oracle) onBroadcast(b cluster.Broadcast) {
 		o.onProposal(b, key, d)
 		return
 	}
-	if o.onAggKinds(b, key) {
+	if o.onAggKinds(b, key) || o.onMoreKinds(b, key) {
 		return
 	}
 	att, ok := b.Data.(core.VersionedAttestation)
@@ -583,6 +589,7 @@ func (o *oracle) final() {
 	o.mu.Lock()
 	defer o.mu.Unlock()
 	o.c.Set("duty_validator_pairs_completed", len(o.roots))
+	o.finalMoreKinds()
 	total := o.nSlots * len(o.cl.Vals)
 	if runSyncMsgs {
 		total *= 2
@@ -592,7 +599,7 @@ func (o *oracle) final() {
 	}
 	total += aggKindsTotal(o.cl, cur)
 	o.c.Set("pairs_total", total)
-	if len(o.roots) == total {
+	if len(o.roots)-len(o.moreKeys) == total { // exits and registrations (moreKeys) have no fixed number of objects
 		verifrt.Probe("all-duties-completed")
 	}
 	for _, kind := range []string{"att-deneb", "att-electra", "randao", "proposer"} {
